@@ -57,10 +57,12 @@ def gen(rng, tier):
     for i in range(40 if tier == 'quick' else 600):
         k = rng.choice([2, 3, 4])
         insts = []
+        cfgs = same_keys_configs(rng, k) if i % 2 else [None] * k
         for j in range(k):
             codec = rng.choice(['latin_1', 'cp500'])
-            msgs = [iu.dict_text(iu.rand_message_fit(rng, pk, codec, nbits=rng.choice([1, 3, 6]))) for _ in range(rng.choice([1, 2, 4, 7]))]
-            insts.append({'role': rng.choice(['reader', 'writer', 'vbsreader']), 'codec': codec, 'blocked': rng.random() < 0.5, 'msgs': msgs})
+            c = cfgs[j]
+            msgs = [iu.dict_text(iu.rand_message_fit(rng, c or pk, codec, nbits=rng.choice([1, 3, 6]), **({'with_pds': True} if c else {}))) for _ in range(rng.choice([1, 2, 4, 7]))]
+            insts.append({'role': rng.choice(['reader', 'writer', 'writer', 'vbsreader']), 'codec': codec, 'blocked': rng.random() < 0.5, 'msgs': msgs, 'cfg': c})
         steps = [j for j, inst in enumerate(insts) for _ in range(len(inst['msgs']) + 2)]
         rng.shuffle(steps)
         cases.append({'kind': 'interleave', 'insts': insts, 'order': steps})
@@ -76,6 +78,37 @@ def write_file(msgs, codec, blocked, cfg):
     return f.getvalue()
 
 
+def ref_file(msgs, codec, blocked, cfg):
+    """the file the documentation describes for these messages, built without the library"""
+    from props.framing import vbs_ref, block_ref
+    stream = vbs_ref([iu.ref_wire(m, cfg if cfg is not None else iu.packaged(), codec, False) for m in msgs])
+    return block_ref(stream) if blocked else stream
+
+
+def same_keys_configs(rng, k):
+    """k configurations over the SAME element numbers with the roles dealt differently (which elements carry PDS data,
+    which are text / numbers): instances that are given different configurations must not take one for another"""
+    bits = sorted(rng.sample(range(2, 128), 7))
+    out = []
+    for _ in range(k):
+        order = list(bits)
+        rng.shuffle(order)
+        cfg = {}
+        for j, b in enumerate(order):
+            if j < 2:
+                c = {'field_type': 'LLLVAR', 'field_length': 0, 'field_processor': 'PDS'}
+            elif j < 4:
+                c = {'field_type': 'LLVAR', 'field_length': 0}
+            elif j == 4:
+                c = {'field_type': 'FIXED', 'field_length': 6, 'field_python_type': 'int'}
+            else:
+                c = {'field_type': 'FIXED', 'field_length': rng.choice([3, 8, 12])}
+            c['field_name'] = 'f%d' % b
+            cfg[str(b)] = c
+        out.append(cfg)
+    return out
+
+
 class Inst:
     """one reader/writer instance driven step by step"""
     def __init__(self, spec):
@@ -86,11 +119,11 @@ class Inst:
         self.i = 0
         if spec['role'] == 'writer':
             self.f = io.BytesIO()
-            self.obj = mciipm.IpmWriter(self.f, encoding=spec['codec'], blocked=spec['blocked'])
+            self.obj = mciipm.IpmWriter(self.f, encoding=spec['codec'], blocked=spec['blocked'], iso_config=spec.get('cfg'))
         else:
-            data = write_file(self.msgs, spec['codec'], spec['blocked'], None)
+            data = ref_file(self.msgs, spec['codec'], spec['blocked'], spec.get('cfg'))
             cls = mciipm.IpmReader if spec['role'] == 'reader' else mciipm.VbsReader
-            kw = {'encoding': spec['codec']} if spec['role'] == 'reader' else {}
+            kw = {'encoding': spec['codec'], 'iso_config': spec.get('cfg')} if spec['role'] == 'reader' else {}
             self.obj = cls(in_stream(data), blocked=spec['blocked'], **kw)
             self.it = iter(self.obj)
 
@@ -131,8 +164,21 @@ def impl(case):
         return [i.out for i in insts]
     inter = run(case['order'])
     solo = run(sorted(case['order']))
+    # what each writer must have produced, whoever else was at work: the documented file of its own messages under its own
+    # configuration (data-carrying blocks; an optional trailing all-fill block is allowed)
+    wrong_writer = None
+    for j, spec in enumerate(case['insts']):
+        if spec['role'] == 'writer' and inter[j]:
+            msgs = [iu.dict_of_text(t) for t in spec['msgs']]
+            want = ref_file(msgs, spec['codec'], spec['blocked'], spec.get('cfg'))
+            got = bytes.fromhex(inter[j][0])
+            n = len(want) if not spec['blocked'] else None
+            ok = (got == want) if not spec['blocked'] else (got[:len(want)] == want or want[:len(got)] == got and set(want[len(got):]) <= {0x40})
+            if not ok and wrong_writer is None:
+                wrong_writer = j
     after = (mciipm.VbsReader.record_number, mciipm.VbsReader.last_record, mciipm.IpmReader.record_number)
-    return {'same': inter == solo, 'class_attrs': before == after == (1, None, 1), 'first_diff': next((i for i, (a, b) in enumerate(zip(inter, solo)) if a != b), None)}
+    return {'same': inter == solo, 'class_attrs': before == after == (1, None, 1), 'first_diff': next((i for i, (a, b) in enumerate(zip(inter, solo)) if a != b), None),
+            'wrong_writer': wrong_writer}
 
 
 def model_lines(case, io_):
@@ -152,6 +198,8 @@ def judge(case, io_, mo):
             ps.append({'kind': 'oracle', 'sig': 'instances-influence-each-other', 'msg': 'instance %s behaves differently when interleaved with others' % io_['first_diff']})
         if not io_['class_attrs']:
             ps.append({'kind': 'oracle', 'sig': 'class-level-state-mutated', 'msg': 'VbsReader/IpmReader class attributes changed'})
+        if io_.get('wrong_writer') is not None:
+            ps.append({'kind': 'oracle', 'sig': 'writer-output-differs-among-other-instances', 'msg': 'writer instance %s, used together with other instances, did not produce the documented file of its own messages under its own configuration' % io_['wrong_writer']})
         return ps
     cfg = case['cfg'] if case['cfg'] is not None else iu.packaged()
     if not io_['file'].startswith('OK '):
